@@ -1,7 +1,7 @@
 (* C04 — solved closed forms reproduce the linear recurrence sequence for all n.
    Only property theorems, each closed by [exact] and followed by Print Assumptions. *)
 From Coq Require Import List QArith Qcanon.
-From Polar Require Import Qcx CRing ExpPoly ClosedForm.
+From Polar Require Import Qcx CRing ExpPoly ClosedForm ClosedFormSeq.
 Import ListNotations.
 
 (* V: acceptance by the executable validator implies equality with A^n v at EVERY n,
@@ -19,6 +19,38 @@ Theorem C04_accepted_agree :
     forall n : nat, pw_eval F sp n = pw_eval F' sp' n.
 Proof. exact accepted_agree. Qed.
 Print Assumptions C04_accepted_agree.
+
+(* the same statement against the recurrence itself rather than against [iter_mat]:
+   an accepted closed form starts at the initial vector, obeys x(n+1) = A x(n) at every n,
+   and equals EVERY sequence that does (uniqueness) *)
+Theorem C04_accepted_starts_at_init :
+  forall (R : cring) A v (F : list (epoly R)) sp,
+    check_solution A v F sp = true -> pw_eval F sp 0 = v.
+Proof. exact accepted_starts_at_init. Qed.
+Print Assumptions C04_accepted_starts_at_init.
+
+Theorem C04_accepted_satisfies_recurrence :
+  forall (R : cring) A v (F : list (epoly R)) sp,
+    check_solution A v F sp = true ->
+    forall n : nat, pw_eval F sp (S n) = mvec A (pw_eval F sp n).
+Proof. exact accepted_satisfies_recurrence. Qed.
+Print Assumptions C04_accepted_satisfies_recurrence.
+
+Theorem C04_accepted_is_the_recurrence_sequence :
+  forall (R : cring) A v (F : list (epoly R)) sp,
+    check_solution A v F sp = true ->
+    forall x : nat -> list R,
+      x 0%nat = v -> (forall n, x (S n) = mvec A (x n)) -> forall n : nat, pw_eval F sp n = x n.
+Proof. exact accepted_is_the_recurrence_sequence. Qed.
+Print Assumptions C04_accepted_is_the_recurrence_sequence.
+
+(* from the cut-off on, the general expressions alone (no Piecewise) give the sequence *)
+Theorem C04_general_part_from_cutoff :
+  forall (R : cring) A v (F : list (epoly R)) sp,
+    check_solution A v F sp = true ->
+    forall n : nat, (length sp <= n)%nat -> evalF F n = iter_mat A n v.
+Proof. exact general_part_from_cutoff. Qed.
+Print Assumptions C04_general_part_from_cutoff.
 
 (* the zero test behind it: a normalised-to-zero exponential polynomial vanishes everywhere *)
 Theorem C04_ezero_sound :
